@@ -672,6 +672,26 @@ fn pool_checks(threads: usize, ids: &[u16], other: &[u16], hb: u8) -> Result<u64
             return Err(ctx("par_eq (equal maps)"));
         }
         let _ = seq_eq;
+        // values only need PartialEq: with a non-reflexive value (NaN) even `m == m` is false, and
+        // par_eq must agree with == for the same object, a clone and an independently built map
+        {
+            let build = |nan: bool| {
+                let mut nm: HashMap<u16, f64, ModBuild> = HashMap::with_hasher(ModBuild(hb));
+                for &i in ids {
+                    nm.insert(i, if nan && i % 2 == 0 { f64::NAN } else { i as f64 });
+                }
+                nm
+            };
+            for nan in [false, true] {
+                let nm = build(nan);
+                let (c, other) = (nm.clone(), build(nan));
+                for (y, which) in [(&nm, "itself"), (&c, "its clone"), (&other, "an identically built map")] {
+                    if nm.par_eq(y) != (&nm == y) {
+                        return Err(format!("{}: par_eq with {which} returned {}, == returns {} (values {} NaN)", ctx("par_eq"), nm.par_eq(y), &nm == y, if nan { "include" } else { "without" }));
+                    }
+                }
+            }
+        }
         if let Some(&first) = ids.first() {
             m3.remove(&GEl::new(first));
             if m.par_eq(&m3) {
